@@ -111,7 +111,7 @@ def kind_of(o, expected_bool):
 ORD = list(c7nrel.ORDER)
 EQ = ["eq", "equal", "ne", "not-equal"]
 IN = ["in", "ni", "not-in"]
-KEYFORMS = ["plain", "dotted", "tag"]
+KEYFORMS = ["plain", "dotted", "tag", "tag-dotted"]
 GROUP = {**{o: "ord" for o in ORD}, **{o: "member" for o in IN}, "contains": "contains", "glob": "glob",
          "intersect": "set", "difference": "set"}
 
@@ -206,6 +206,11 @@ def key_and_resource(keyform, r):
         if not missing:
             tags.append({"Key": "Name", "Value": r})
         return "tag:Name", {"Tags": tags}
+    if keyform == "tag-dotted":                   # a tag whose own name contains a dot
+        tags = [{"Key": "app", "Value": "o"}]
+        if not missing:
+            tags.append({"Key": "app.owner", "Value": r})
+        return "tag:app.owner", {"Tags": tags}
     raise ValueError(keyform)
 
 
@@ -302,7 +307,7 @@ def shard_ops(task):
 # ---------------------------------------------------------------------------------------------------
 ALPHABET = ["a", '"', "'", "\\", "\n", "\t", "é", "😀", " ", "{"]
 CHAR_NAME = {"a": "a", '"': "DQ", "'": "SQ", "\\": "BS", "\n": "LF", "\t": "TAB", "é": "U+E9", "😀": "U+1F600", " ": "SP", "{": "LBRACE"}
-POSITIONS = ["q", "value", "key", "tag", "url", "list-element"]
+POSITIONS = ["q", "value", "key", "tag", "url", "list-element", "marked-tag"]
 
 
 def max_len(tier):
@@ -341,6 +346,9 @@ def literal_probe(position, s):
     if position == "list-element":
         t = translate({"type": "value", "key": "k", "op": "in", "value": [s, "other"]})
         return [(t, False, {"k": s}, True), (t, False, {"k": s + "~"}, False)]
+    if position == "marked-tag":
+        t = translate({"type": "marked-for-op", "tag": s, "op": "stop"})
+        return [(t, False, {"Tags": [{"Key": s + "~", "Value": "w"}, {"Key": s, "Value": "m:stop@2020-01-01"}]}, True)]
     raise ValueError(position)
 
 
@@ -660,7 +668,7 @@ def run(ctx):
     ctx.rule = (
         "ops: every (op, literal v, value_type, attribute value r, key form) of the block table (ops " + ", ".join(c7nrel.OPS) + "; value kinds int/string/bool/"
         "list of strings/list of ints; value_type none/size/integer/normalize/swap/unique_size/age/expiration where meaningful; r on both sides of the "
-        "comparison boundary; key forms k, a.b, tag:Name); presence: present/absent/not-null/empty x {missing, null, '', [], 0, false, 'x', ['x'], 5, true} x key forms; "
+        "comparison boundary; key forms k, a.b, tag:Name, tag:app.owner); presence: present/absent/not-null/empty x {missing, null, '', [], 0, false, 'x', ['x'], 5, true} x key forms; "
         f"literals: every string over {[CHAR_NAME[c] for c in ALPHABET]} of length <= {max_len(tier)} in each of the positions {POSITIONS}; "
         "durations: every day count and second count of the bound; tables: every (rewriter, resource type) entry; "
         f"histories: every ordered pair of a {len(hist_alphabet())}-clause alphabet (value clauses and related-resource clauses sharing keys, one clause per other rewriter), and the "
